@@ -102,6 +102,14 @@ impl<'h, H: HandlerTypes> HtmlRewriteController<'h, H> {
 }
 
 impl<H: HandlerTypes> HtmlRewriteController<'_, H> {
+    /// Verification hook: real capacity of the open-element stack, in bytes.
+    #[cfg(feature = "_verif_hooks")]
+    pub(super) fn verif_stack_capacity_bytes(&self) -> usize {
+        self.selector_matching_vm
+            .as_ref()
+            .map_or(0, SelectorMatchingVm::verif_stack_capacity_bytes)
+    }
+
     #[inline]
     fn respond_to_aux_info_request(
         aux_info_req: AuxStartTagInfoRequest<ElementDescriptor>,
